@@ -226,6 +226,8 @@ pub struct Exec<'a> {
     pub cur_op: i64,
     pub aux: Rng,
     pub worker_dead_seen: bool,
+    /// a snapshot taken by Op::Snapshot with the entries that were live at that moment
+    pub held: Option<(raft_log::DumpRaftLog<TT>, Vec<(LogId, String)>)>,
 }
 
 impl<'a> Exec<'a> {
@@ -277,6 +279,7 @@ impl<'a> Exec<'a> {
     }
 
     fn do_drop(&mut self) {
+        self.held = None;
         if let Some(rl) = self.rl.take() {
             // C14's precondition: the last flush covered every record and was acknowledged Ok
             let clean = self.flushes.last().map(|f| f.generation == self.generation && f.nrec == self.records.len() && f.with_cb && core::acked(f.fid) == Some(true)).unwrap_or(false);
@@ -789,6 +792,31 @@ impl<'a> Exec<'a> {
                     }
                 }
             }
+            Op::Snapshot => {
+                let rl = self.rl();
+                if let Ok(d) = catch_unwind(AssertUnwindSafe(|| rl.dump_data())) {
+                    self.held = Some((d, self.model.all()));
+                    self.probe("snapshot_taken");
+                }
+            }
+            Op::SnapshotIter => {
+                if let Some((mut d, want)) = self.held.take() {
+                    self.probe("snapshot_iterated_later");
+                    let got = catch_unwind(AssertUnwindSafe(|| d.iter().map(|r| r.map_err(|e| norm_err(&e))).collect::<Vec<_>>()));
+                    match got {
+                        Err(p) => self.violate(format!("panic:{}:snapshot_iter", panic_class(&last_panic_loc(), &panic_msg(&*p))), panic_msg(&*p)),
+                        Ok(got) => {
+                            if let Some((class, detail)) = self.cmp_read(&got, &want) {
+                                let mine = self.or.model_eq || self.or.reads_ok;
+                                // an unreadable entry keeps its family-tagged class (the known eviction finding
+                                // is a property of the history, not of how the entry is read)
+                                let class = if class.starts_with("read-err:lower-term-family") { class } else { format!("snapshot-later:{class}") };
+                                self.diverge(mine, &class, format!("a dump_data() snapshot iterated after later operations: {detail}"));
+                            }
+                        }
+                    }
+                }
+            }
             Op::Dump => {
                 let rl = self.rl();
                 let got = catch_unwind(AssertUnwindSafe(|| rl.dump().write_to_string()));
@@ -988,6 +1016,7 @@ pub fn run_spec_in(spec: &Spec, or: &Oracles, root: &str, model: Model) -> RunOu
         cur_op: -1,
         aux: Rng::new(spec.run_seed ^ 0xA5A5_5A5A_1234_5678),
         worker_dead_seen: false,
+        held: None,
     };
     let cfg0 = spec.cfg.clone();
     let mut ops_done = 0;
